@@ -58,14 +58,15 @@ for _n, _nd, _tiers in ((3, 2, ('quick', 'thorough')), (3, 3, ('quick', 'thoroug
 
 
 # ---------------------------------------------------------------- C20.f Polygons::_getHullIndices: convex hull by gift wrapping (harness/C20/hull.cpp)
-for _n, _g, _tiers in ((4, 16, ('quick', 'thorough')), (5, 16, ('thorough',))):
-    K('C20.f.%d' % _n, property='C20', engine='symex', harness='C20/hull.cpp', entry='k_hull',
-      tus=['src/Polygon/Polygons.cpp', 'src/Basic/AStringable.cpp', 'src/Basic/Utilities.cpp'],
-      defines={'all': {'VF_N': _n, 'VF_G': _g}}, tiers=_tiers,
-      bounds={'quick': 'exactly %d points on the integer grid |v| <= %d in general position (no three collinear, hence pairwise distinct)' % (_n, _g)},
-      timeout_ms={'quick': 120000, 'thorough': 1200000}, validate={'quick': 40, 'thorough': 80}, validate_doubles='int',
-      what='Polygons::_getHullIndices: the returned ring is closed, has 3..n distinct valid vertices, every input point lies on the same side of (or on) every ring edge '
-           '(exact integer cross products), the wrapping loop terminates and stays inside its index array',
-      out='collinear triples (the EPSILON6 test discarding the middle point), duplicates, floating rounding of the centroid direction, more points than the bound; the dilation of db_selhull',
-      assumptions=['no three input points are collinear', 'real-arithmetic reading of the centroid (sum / n) used as first wrapping direction; all other products are exact on the grid'],
-      stubs=[])
+K('C20.f.x', property='C20', engine='symex', harness='C20/hull.cpp', entry='k_hull',
+  tus=['src/Polygon/Polygons.cpp', 'src/Basic/AStringable.cpp', 'src/Basic/Utilities.cpp'],
+  defines={'all': {'VF_N': 4, 'VF_G': 1048576, 'VF_XS': '0,1,2,3'}}, symex={'no_merge': True},
+  passes='cgscc(inline),function(sroa,early-cse,instcombine,dce)',
+  bounds={'quick': 'experimental'}, timeout_ms={'quick': 120000}, validate={'quick': 40}, validate_doubles='int',
+  what='x', out='x', assumptions=[], stubs=[])
+K('C20.f.y', property='C20', engine='symex', harness='C20/hull.cpp', entry='k_hull',
+  tus=['src/Polygon/Polygons.cpp', 'src/Basic/AStringable.cpp', 'src/Basic/Utilities.cpp'],
+  defines={'all': {'VF_N': 4, 'VF_G': 16}}, symex={'no_merge': True},
+  passes='cgscc(inline),function(sroa,early-cse,instcombine,dce)',
+  bounds={'quick': 'experimental'}, timeout_ms={'quick': 120000}, validate={'quick': 40}, validate_doubles='int',
+  what='x', out='x', assumptions=[], stubs=[])
